@@ -769,4 +769,164 @@ def toyLawful : toy.Lawful where
         simp [rfcTail, toyRun, toyStep]
         rfl
 
+/-! ### with a send limit (`maxMessagePayloadSize > 0`): sends may be refused after compression -/
+
+/-- the receiving half stands between messages and its inflater (if any) is in sync with SOME deflater state -/
+def DecAtBoundary (L : K.Lawful) (a b : Pmce) (r : Rx K) : Prop :=
+  r.pmce = some b ∧ r.inside = false ∧
+  (r.dec = none ∨ ∃ c d, r.dec = some d ∧ L.Sync a.encWbits b.decWbits c d)
+
+/-- a deflater that resets for every message is in sync with any inflater standing at a boundary -/
+theorem start_sync_nct (L : K.Lawful) (a b : Pmce) (hc : dirCompatible a b) (he : a.encNct = true)
+    (comp : Option K.CSt) (dec : Option K.DSt)
+    (h : dec = none ∨ ∃ c d, dec = some d ∧ L.Sync a.encWbits b.decWbits c d) :
+    L.Sync a.encWbits b.decWbits (startCompress a comp) (startDecompress b dec) := by
+  have hs : startCompress a comp = K.freshC a.encWbits a.memLevel := by
+    cases comp <;> simp [startCompress, he]
+  rw [hs]
+  rcases h with rfl | ⟨c, d, rfl, hsy⟩
+  · exact L.fresh _ _ _ hc.1
+  · simp only [startDecompress]
+    cases hd : b.decNct with
+    | true => simpa using L.fresh _ _ _ hc.1
+    | false => simpa using L.enc_reset _ _ _ _ _ hsy
+
+/-- `rx_of_compressed` from an explicit sync hypothesis -/
+theorem rx_of_compressed_sync (L : K.Lawful) (a b : Pmce) (t : Tx K) (r : Rx K)
+    (hrb : r.pmce = some b) (hri : r.inside = false)
+    (hsync : L.Sync a.encWbits b.decWbits (startCompress a t.comp) (startDecompress b r.dec))
+    (pieces : List Bytes) (op : Nat) (ho : op = 1 ∨ op = 2) (ws : List WireFrame)
+    (htr : Train op 4 (ws.map WireFrame.toFrame))
+    (hpl : payloads (ws.map WireFrame.toFrame) =
+      (K.compressAll (startCompress a t.comp) pieces).2.flatten
+        ++ (endCompress (K.compressAll (startCompress a t.comp) pieces).1).2) :
+    ∃ r', rxAll r ws = some (r', [(op == 2, pieces.flatten)]) ∧ DecAtBoundary L a b r' := by
+  obtain ⟨body, hfl, hall⟩ := L.message _ _ _ _ pieces hsync
+  have hbody : (endCompress (K.compressAll (startCompress a t.comp) pieces).1).2 = body := by
+    simp only [endCompress, hfl, strip_tail]
+  rw [hbody] at hpl
+  obtain ⟨d1, hfeed, d2, o, htail, hs2⟩ := hall (allChunks ws) (by rw [allChunks_flatten, hpl])
+  obtain ⟨r', hrx, hp', hi', hd'⟩ := rx_compressed_train b r ws op pieces.flatten d1 d2 o hrb hri ho htr hfeed htail
+  exact ⟨r', hrx, hp', hi', Or.inr ⟨_, d2, hd', hs2⟩⟩
+
+theorem send_recv_one_limit (L : K.Lawful) (a b : Pmce) (hc : dirCompatible a b) (he : a.encNct = true)
+    (maxPayload : Nat) (t : Tx K) (r : Rx K) (hta : t.pmce = some a) (hin : DecAtBoundary L a b r)
+    (m : Msg) (hwf : m.wf) (ws : List WireFrame)
+    (hw : ws.map WireFrame.toFrame = (sendOne t maxPayload m).2.1) :
+    (sendOne t maxPayload m).1.pmce = some a ∧
+    ∃ r', rxAll r ws = some (r', if (sendOne t maxPayload m).2.2 then [(m.bin, m.data)] else [])
+      ∧ DecAtBoundary L a b r' := by
+  obtain ⟨hrb, hri, hs⟩ := hin
+  have hsync := start_sync_nct L a b hc he t.comp r.dec hs
+  cases m with
+  | whole bin dnc frag payload =>
+    simp only [Msg.wf] at hwf
+    cases dnc with
+    | false =>
+      obtain ⟨fs, hfs⟩ := fragment_isSome frag (opcodeOf bin) 4
+        ((K.compress (startCompress a t.comp) payload).2
+          ++ (endCompress (K.compress (startCompress a t.comp) payload).1).2) hwf
+      by_cases hlim : 0 < maxPayload ∧ maxPayload <
+          ((K.compress (startCompress a t.comp) payload).2
+            ++ (endCompress (K.compress (startCompress a t.comp) payload).1).2).length
+      · have hso : sendOne t maxPayload (.whole bin false frag payload) =
+            ({ t with comp := some (endCompress (K.compress (startCompress a t.comp) payload).1).1 }, [], false) := by
+          simp only [sendOne, sendMessage, hta, hlim, and_self, if_true]
+        rw [hso] at hw ⊢
+        simp only [List.map_eq_nil_iff] at hw
+        subst hw
+        exact ⟨hta, r, by simp [rxAll], hrb, hri, hs⟩
+      · have hso : sendOne t maxPayload (.whole bin false frag payload) =
+            ({ t with comp := some (endCompress (K.compress (startCompress a t.comp) payload).1).1 }, fs, true) := by
+          simp only [sendOne, sendMessage, hta, hlim, if_false, hfs]
+        rw [hso] at hw ⊢
+        obtain ⟨htr, hpl⟩ := fragment_train _ _ _ _ _ hfs
+        simp only at hw
+        rw [← hw] at htr hpl
+        obtain ⟨r', h1, h2⟩ := rx_of_compressed_sync L a b t r hrb hri hsync [payload] (opcodeOf bin) (opcodeOf_ok bin)
+          ws htr (by simpa [Codec.compressAll] using hpl)
+        exact ⟨hta, r', by simpa [opcodeOf_bin, Msg.bin, Msg.data] using h1, h2⟩
+    | true =>
+      obtain ⟨fs, hfs⟩ := fragment_isSome frag (opcodeOf bin) 0 payload hwf
+      by_cases hlim : 0 < maxPayload ∧ maxPayload < payload.length
+      · have hso : sendOne t maxPayload (.whole bin true frag payload) = (t, [], false) := by
+          simp only [sendOne, sendMessage, hta, hlim, and_self, if_true]
+        rw [hso] at hw ⊢
+        simp only [List.map_eq_nil_iff] at hw
+        subst hw
+        exact ⟨hta, r, by simp [rxAll], hrb, hri, hs⟩
+      · have hso : sendOne t maxPayload (.whole bin true frag payload) = (t, fs, true) := by
+          simp only [sendOne, sendMessage, hta, hlim, if_false, hfs]
+        rw [hso] at hw ⊢
+        obtain ⟨htr, hpl⟩ := fragment_train _ _ _ _ _ hfs
+        simp only at hw
+        rw [← hw] at htr hpl
+        obtain ⟨r', h1, hp', hi', hd'⟩ := rx_plain_train b r ws (opcodeOf bin) hrb hri (opcodeOf_ok bin) htr
+        refine ⟨hta, r', ?_, hp', hi', ?_⟩
+        · simpa [opcodeOf_bin, Msg.bin, Msg.data, hpl] using h1
+        · rw [hd']; exact hs
+  | stream bin dnc pieces =>
+    simp only [Msg.wf] at hwf
+    cases dnc with
+    | false =>
+      have hlen := compressAll_length (startCompress a t.comp) pieces
+      cases hout : (K.compressAll (startCompress a t.comp) pieces).2 with
+      | nil =>
+        rw [hout] at hlen
+        cases pieces with
+        | nil => exact absurd rfl hwf
+        | cons _ _ => simp at hlen
+      | cons o os =>
+        have hso : sendOne t maxPayload (.stream bin false pieces) =
+            ({ t with comp := some (endCompress (K.compressAll (startCompress a t.comp) pieces).1).1 },
+             (⟨false, 4, opcodeOf bin, o⟩ :: contFrames os)
+               ++ [⟨true, 0, 0, (endCompress (K.compressAll (startCompress a t.comp) pieces).1).2⟩], true) := by
+          simp only [sendOne, sendStream, hta, hout]
+        rw [hso] at hw ⊢
+        obtain ⟨htr, hpl⟩ := stream_train (opcodeOf bin) 4 o os
+          (endCompress (K.compressAll (startCompress a t.comp) pieces).1).2
+        simp only at hw
+        rw [← hw] at htr hpl
+        obtain ⟨r', h1, h2⟩ := rx_of_compressed_sync L a b t r hrb hri hsync pieces (opcodeOf bin) (opcodeOf_ok bin)
+          ws htr (by rw [hpl, hout]; simp)
+        exact ⟨hta, r', by simpa [opcodeOf_bin, Msg.bin, Msg.data] using h1, h2⟩
+    | true =>
+      cases pieces with
+      | nil => exact absurd rfl hwf
+      | cons o os =>
+        have hso : sendOne t maxPayload (.stream bin true (o :: os)) =
+            (t, (⟨false, 0, opcodeOf bin, o⟩ :: contFrames os) ++ [⟨true, 0, 0, []⟩], true) := by
+          simp only [sendOne, sendStream, hta]
+        rw [hso] at hw ⊢
+        obtain ⟨htr, hpl⟩ := stream_train (opcodeOf bin) 0 o os []
+        simp only at hw
+        rw [← hw] at htr hpl
+        obtain ⟨r', h1, hp', hi', hd'⟩ := rx_plain_train b r ws (opcodeOf bin) hrb hri (opcodeOf_ok bin) htr
+        refine ⟨hta, r', ?_, hp', hi', ?_⟩
+        · simpa [opcodeOf_bin, Msg.bin, Msg.data, hpl] using h1
+        · rw [hd']; exact hs
+
+theorem send_recv_all_limit (L : K.Lawful) (a b : Pmce) (hc : dirCompatible a b) (he : a.encNct = true)
+    (maxPayload : Nat) :
+    ∀ (msgs : List Msg) (t : Tx K) (r : Rx K), t.pmce = some a → DecAtBoundary L a b r → (∀ m ∈ msgs, m.wf) →
+      ∀ ws : List WireFrame, ws.map WireFrame.toFrame = (sendAll t maxPayload msgs).2.1 →
+        ∃ r', rxAll r ws = some (r', (sendAll t maxPayload msgs).2.2) := by
+  intro msgs
+  induction msgs with
+  | nil =>
+    intro t r _ _ _ ws hw
+    simp only [sendAll, List.map_eq_nil_iff] at hw
+    subst hw
+    exact ⟨r, rfl⟩
+  | cons m ms ih =>
+    intro t r hta hin hwf ws hw
+    simp only [sendAll] at hw ⊢
+    obtain ⟨w1, w2, rfl, h1, h2⟩ := List.map_eq_append_iff.1 hw
+    obtain ⟨hta1, r1, hrx1, hin1⟩ := send_recv_one_limit L a b hc he maxPayload t r hta hin m
+      (hwf m (List.mem_cons_self ..)) w1 h1
+    obtain ⟨r2, hrx2⟩ := ih (sendOne t maxPayload m).1 r1 hta1 hin1 (fun x hx => hwf x (List.mem_cons_of_mem _ hx)) w2 h2
+    refine ⟨r2, ?_⟩
+    rw [rxAll_append, hrx1]
+    simp only [hrx2]
+
 end Abverif.Pmce
